@@ -182,6 +182,12 @@ def run(ctx):
     cases += gen(ctx, d, [3, 30, 61], [43170, 43199, 43200, 43230])                 # near the pole row, 0 E tile edge
     if quick:
         cases = ctx.rng.sample(cases, 90)
+    else:
+        # every other four-tile corner of the world, a random eighth of the rectangles each
+        for vb in (12000, 24000):
+            for hk in (2, 3, 5, 6, 8):
+                more = gen(ctx, d, near(vb), near(9600 * hk))
+                cases += ctx.rng.sample(more, len(more) // 8)
     pmap(ctx, replay, cases, procs=6, chunk=5)
     pmap(ctx, grids_check, [0], procs=1)
     with open(os.path.join(d, "MCCache.cfg"), "w") as f:
